@@ -518,3 +518,50 @@ func c12Remote(c *an.Ctx) {
 	c.Check("K3", "endJob:releases-slot", endJob.Pos(), w == nil,
 		"endJob must release the job's slot whenever a semaphore exists; "+c.WitnessString(w))
 }
+
+// K5 (baton passing).  Release wakes exactly one waiter (cond.Signal).  A waiter that returns from
+// cond.Wait() has consumed that wake-up; if it then leaves Acquire without taking the slot (its job
+// was cancelled or failed meanwhile) and without signalling again, the slot stays free while the
+// remaining waiters sleep forever.  Necessary condition: every path from a Wait() to a return crosses
+// a Signal/Broadcast of a condition variable - explicitly, or because a deferred Signal/Broadcast was
+// registered on every path before the Wait.
+func c12Baton(c *an.Ctx, fns []*ssa.Function) {
+	isSig := func(x ssa.Instruction) bool {
+		if _, ok := an.IsMethodCall(x, "sync", "Cond", "Signal"); ok {
+			return true
+		}
+		_, ok := an.IsMethodCall(x, "sync", "Cond", "Broadcast")
+		return ok
+	}
+	n := 0
+	for _, fn := range fns {
+		an.Instrs(fn, func(in ssa.Instruction) {
+			if _, ok := an.IsMethodCall(in, "sync", "Cond", "Wait"); !ok {
+				return
+			}
+			if _, isDefer := in.(*ssa.Defer); isDefer {
+				return
+			}
+			n++
+			key := "baton-passed-after-wait@" + an.FnName(fn)
+			deferred, _ := an.MustPass(fn, nil, func(x ssa.Instruction) bool { return x == in }, func(x ssa.Instruction) bool {
+				d, ok := x.(*ssa.Defer)
+				if !ok {
+					return false
+				}
+				f := d.Call.StaticCallee()
+				return f != nil && f.Pkg != nil && f.Pkg.Pkg.Path() == "sync" && (f.Name() == "Signal" || f.Name() == "Broadcast")
+			})
+			if deferred {
+				c.Pass("K5", key, in.Pos(), "a deferred Signal/Broadcast is registered on every path before the Wait: every return passes the wake-up on")
+				return
+			}
+			w := an.Query{Fn: fn, After: in, Target: an.IsReturn, Barrier: func(x ssa.Instruction) bool {
+				return isSig(x) || x == in
+			}}.Find()
+			c.Check("K5", key, in.Pos(), w == nil,
+				"a waiter that was woken by Signal and returns without taking the slot must wake the next waiter (Signal/Broadcast on every path from Wait to return, or a deferred one); otherwise a freed slot is never granted again; "+c.WitnessString(w))
+		})
+	}
+	c.Floor("K5", "cond.Wait() sites in package core", n, 1)
+}
